@@ -30,9 +30,21 @@ ENV = dict(os.environ, CARGO_NET_OFFLINE="true", VERIF_REPO=REPO)
 
 
 def sh(cmd, cwd=None, timeout=3600):
-    p = subprocess.run(cmd, shell=True, cwd=cwd, env=ENV, stdout=subprocess.PIPE, stderr=subprocess.STDOUT,
-                       text=True, timeout=timeout)
-    return p.returncode, p.stdout
+    """Runs a shell command in its own process group; on timeout the whole group is killed
+    (a mutant may make a unit test loop forever) and rc 124 is returned."""
+    import signal
+    p = subprocess.Popen(cmd, shell=True, cwd=cwd, env=ENV, stdout=subprocess.PIPE, stderr=subprocess.STDOUT,
+                         text=True, start_new_session=True)
+    try:
+        out, _ = p.communicate(timeout=timeout)
+        return p.returncode, out
+    except subprocess.TimeoutExpired:
+        try:
+            os.killpg(p.pid, signal.SIGKILL)
+        except ProcessLookupError:
+            pass
+        out, _ = p.communicate()
+        return 124, (out or "") + "\nTIMEOUT"
 
 
 def setup():
@@ -136,10 +148,12 @@ def main():
         if done >= N:
             break
         old, new = apply(mut)
-        rc, out = sh("cargo test --offline --lib 2>&1 | tail -40", cwd=REPO, timeout=1800)
+        rc, out = sh("cargo test --offline --lib 2>&1 | tail -40", cwd=REPO, timeout=420)
         verdict = {"file": mut[0], "line": mut[1] + 1, "op": f"{mut[3]} -> {mut[4]}" if mut[3] != "DEL" else "delete statement",
                    "old": old.strip(), "new": new.strip()}
-        if "could not compile" in out or "error[" in out or "error:" in out and "test result" not in out:
+        if rc == 124:
+            verdict["status"] = "killed-by-suite"      # a unit test hangs
+        elif "could not compile" in out or "error[" in out or "error:" in out and "test result" not in out:
             verdict["status"] = "does-not-compile"
         elif "test result: FAILED" in out or "panicked" in out and "test result: ok" not in out:
             verdict["status"] = "killed-by-suite"
@@ -158,6 +172,9 @@ def main():
         sh("git checkout -- .", cwd=REPO)
         results.append(verdict)
         print(json.dumps(verdict), flush=True)
+        os.makedirs("/verif/seeded/campaign", exist_ok=True)
+        json.dump({"seed": SEED, "partial": True, "results": results},
+                  open(f"/verif/seeded/campaign/seed{SEED}.json", "w"), indent=1)
     os.makedirs("/verif/seeded/campaign", exist_ok=True)
     summ = {"seed": SEED, "evaluated": done,
             "caught": sum(1 for r in results if r["status"] == "caught"),
